@@ -1181,4 +1181,164 @@ theorem C05_hot_reload_static_idle (env : Env) (fuel : Nat) (s : St) (r : RSt) (
     rw [hotReload_static env fuel s r hd hstatic]
     exact ⟨rfl, rfl, fun k => processMsgs_lookup s r k, (processMsgs_static s r).trans hstatic⟩
 
+/-- **Histories in which the reloader is switched to static mode** (partial), from the empty cache and
+an empty reloader, under ONE environment without fault plan (no edit: a notification under an unchanged
+source makes the reloader re-evaluate assets whose re-evaluation reproduces the cached value — the
+statement is about the bookkeeping). The history is any list of API operations, `hot_reload()`s,
+batches of events and `enhance_hot_reloading`s such that every step satisfies `StepOK` in the state it
+starts from (`StaticHist`):
+* a load satisfies `LoadOK` (`CleanLoad`, `NoProbedKeyFilled`, `NoPendingKeyFilled`) — `get_or_insert`,
+  `remove`, `take` and the read-only operations as in `C05_history_settled_partial`;
+* a reloader step that runs `run_update` with something to reload — a batch of events in static mode,
+  `hot_reload()` or the switch in local mode after events were taken — satisfies `PassOK` for the state
+  it hands to `run_update` (`prePass`): acyclic look-ups, fuel for the sort, `NoMissInPass`,
+  `ReloadsReturn`, `NoRewireOntoPending` on the steps of that pass.
+Loads need not be separated by reloader steps: in static mode the registrations of a load stay in the
+channel until the next reloader step (`Pending`), whichever it is.
+
+Conclusion: after EVERY reloader step of the history — every `enhance_hot_reloading`, every batch of
+events (static mode: applied at once; local mode: taken), every `hot_reload()` (static mode: a no-op
+drain) — everything registered and cached is settled, the index is exact, the channel is drained, the
+reloader is alive, in static mode nothing is pending; after `enhance_hot_reloading` the mode is static. -/
+theorem C05_static_history_partial (env : Env) (hS : env.Steady) (fuel : Nat) (h : List (Env × HOp))
+    (hh : StaticHist env fuel h ({}, {})) :
+    ∀ h1 op h2, h = h1 ++ (env, op) :: h2 → op.isReloader = true →
+      Settled env fuel (runH fuel (h1 ++ [(env, op)]) ({}, {})).1 (runH fuel (h1 ++ [(env, op)]) ({}, {})).2.graph ∧
+      GraphOK (runH fuel (h1 ++ [(env, op)]) ({}, {})).2.graph ∧
+      (runH fuel (h1 ++ [(env, op)]) ({}, {})).1.out = [] ∧
+      (runH fuel (h1 ++ [(env, op)]) ({}, {})).2.dead = false ∧
+      ((runH fuel (h1 ++ [(env, op)]) ({}, {})).2.static_ = true →
+        (runH fuel (h1 ++ [(env, op)]) ({}, {})).2.toReload = []) ∧
+      (op = .enhance → (runH fuel (h1 ++ [(env, op)]) ({}, {})).2.static_ = true) := by
+  intro h1 op h2 e hop
+  obtain ⟨j1, j2, j3⟩ := (static_hist_settled hS hh (SInv.init env fuel)).2 h1 op h2 e hop
+  refine ⟨j1, C05_history_keeps_graphOK fuel _ _ graphOK_nil, j2, j3.live, j3.idle, ?_⟩
+  intro eo
+  subst eo
+  have hpre := static_hist_prefix hS hh (SInv.init env fuel) h1 ((env, .enhance) :: h2) e
+  rw [runH_append]
+  generalize runH fuel h1 ({}, {}) = x1 at hpre
+  obtain ⟨s1, r1⟩ := x1
+  exact enhance_static_after env fuel s1 r1 hpre.live
+
+/-- `C05_static_history_partial` contains `C05_history_settled_partial`: every history of loads and
+`hot_reload()`s (`LoadHist`) is a `StaticHist` — its `hot_reload()`s have nothing to reload, which needs
+no hypothesis. -/
+theorem C05_static_history_extends (env : Env) (hS : env.Steady) (fuel : Nat) (h : List (Env × HOp))
+    (hh : LoadHist env fuel h ({}, {})) : StaticHist env fuel h ({}, {}) :=
+  StaticHist.of_loadHist hS hh (HInv.init env fuel)
+
+/-! ### Non-vacuity of the static-mode statements: the chain `b → e` -/
+
+/-- `load b` (which loads `e`), then `enhance_hot_reloading`: the two registrations are taken by the
+switch; static mode -/
+def exStatic : St × RSt :=
+  runH 10 [(exEnv [1, 0] [10], .api (.load kb)), (exEnv [1, 0] [10], .enhance)] ({}, {})
+
+theorem exStatic_hist :
+    StaticHist (exEnv [1, 0] [10]) 10 [(exEnv [1, 0] [10], .api (.load kb)), (exEnv [1, 0] [10], .enhance)] ({}, {}) :=
+  .cons _ _ _ (StepOK.load (loadOK_of_check (by decide))) (.cons _ _ _ (StepOK.of_idle rfl (by decide)) (.nil _))
+
+/-- **Non-vacuity** of `C05_static_events_converge_partial`: `load b`, `enhance_hot_reloading` (the
+initial state is produced by the history theorem), `e.s` is edited from `10` to `20`, the event is
+handed to the reloader — no `hot_reload()`. All hypotheses hold. -/
+example :
+    Settled (exEnv [1, 0] [20]) 10 (handleEvents (exEnv [1, 0] [20]) 10 exStatic.1 exStatic.2 [.file "e" "s"]).1
+      (handleEvents (exEnv [1, 0] [20]) 10 exStatic.1 exStatic.2 [.file "e" "s"]).2.graph ∧
+    (handleEvents (exEnv [1, 0] [20]) 10 exStatic.1 exStatic.2 [.file "e" "s"]).2.dead = false ∧
+    (handleEvents (exEnv [1, 0] [20]) 10 exStatic.1 exStatic.2 [.file "e" "s"]).1.out = [] ∧
+    (handleEvents (exEnv [1, 0] [20]) 10 exStatic.1 exStatic.2 [.file "e" "s"]).2.toReload = [] ∧
+    (handleEvents (exEnv [1, 0] [20]) 10 exStatic.1 exStatic.2 [.file "e" "s"]).2.static_ = true ∧
+    GraphOK (handleEvents (exEnv [1, 0] [20]) 10 exStatic.1 exStatic.2 [.file "e" "s"]).2.graph :=
+  have h0 := C05_static_history_partial (exEnv [1, 0] [10]) (exEnv_steady _ _) 10 _ exStatic_hist
+    [(exEnv [1, 0] [10], .api (.load kb))] .enhance [] rfl rfl
+  C05_static_events_converge_partial (exEnv [1, 0] [10]) (exEnv [1, 0] [20]) 10 exStatic.1 exStatic.2
+    [.file "e" "s"] [.file "e" "s"]
+    (rank := exRank) (exEnv_steady _ _) (exEnv_steady _ _) (exEnv_same _ _ _ _)
+    h0.1 h0.2.1 (rank_of_entries (by decide)) h0.2.2.2.1 (by decide) h0.2.2.1 (h0.2.2.2.2.2 rfl)
+    (exEnv_unchanged_e _ _ _) (fun _ _ => rfl) (fun _ hd _ => Or.inl hd)
+    (noMiss_of_check (by decide)) (reloadsReturn_of_check (by decide)) (noRewire_of_check (by decide))
+
+/-- the conclusion, checked on the computed state: `e = 20`, `b = 21` as soon as `handle_events` returns -/
+example :
+    (handleEvents (exEnv [1, 0] [20]) 10 exStatic.1 exStatic.2 [.file "e" "s"]).1.lookup ke = some ⟨.int 20, true, 1, true, 0⟩ ∧
+    (handleEvents (exEnv [1, 0] [20]) 10 exStatic.1 exStatic.2 [.file "e" "s"]).1.lookup kb = some ⟨.int 21, true, 1, true, 1⟩ ∧
+    settledB (exEnv [1, 0] [20]) 10 (handleEvents (exEnv [1, 0] [20]) 10 exStatic.1 exStatic.2 [.file "e" "s"]).1
+      (handleEvents (exEnv [1, 0] [20]) 10 exStatic.1 exStatic.2 [.file "e" "s"]).2.graph = true ∧
+    (updateSteps (exEnv [1, 0] [20]) 10 (takeEvents exStatic.1 exStatic.2 [.file "e" "s"]).1
+      (takeEvents exStatic.1 exStatic.2 [.file "e" "s"]).2).map (·.key) = [ke, kb] := by decide
+
+/-- … and a `hot_reload()` afterwards changes nothing (`C05_hot_reload_static_idle`) -/
+example :
+    hotReload (exEnv [1, 0] [20]) 10 (handleEvents (exEnv [1, 0] [20]) 10 exStatic.1 exStatic.2 [.file "e" "s"]).1
+        (handleEvents (exEnv [1, 0] [20]) 10 exStatic.1 exStatic.2 [.file "e" "s"]).2 =
+      handleEvents (exEnv [1, 0] [20]) 10 exStatic.1 exStatic.2 [.file "e" "s"] := by
+  have h := (C05_hot_reload_static_idle (exEnv [1, 0] [20]) 10
+    (handleEvents (exEnv [1, 0] [20]) 10 exStatic.1 exStatic.2 [.file "e" "s"]).1
+    (handleEvents (exEnv [1, 0] [20]) 10 exStatic.1 exStatic.2 [.file "e" "s"]).2 (by decide)).1
+  rw [h, show (handleEvents (exEnv [1, 0] [20]) 10 exStatic.1 exStatic.2 [.file "e" "s"]).2.dead = false by decide]
+  exact processMsgs_nil _ _ (by decide)
+
+/-- **Non-vacuity** of `C05_enhance_converges_partial`: `exHist` = `load b`, `hot_reload()`, `e.s` edited
+from `10` to `20` and notified in LOCAL mode (taken, not applied); `enhance_hot_reloading` applies it. -/
+example :
+    (Settled (exEnv [1, 0] [20]) 10 (enhance (exEnv [1, 0] [20]) 10 exHist.1 exHist.2).1
+      (enhance (exEnv [1, 0] [20]) 10 exHist.1 exHist.2).2.graph ∧
+     (enhance (exEnv [1, 0] [20]) 10 exHist.1 exHist.2).2.dead = false ∧
+     (enhance (exEnv [1, 0] [20]) 10 exHist.1 exHist.2).1.out = [] ∧
+     (enhance (exEnv [1, 0] [20]) 10 exHist.1 exHist.2).2.toReload = [] ∧
+     (enhance (exEnv [1, 0] [20]) 10 exHist.1 exHist.2).2.static_ = true ∧
+     GraphOK (enhance (exEnv [1, 0] [20]) 10 exHist.1 exHist.2).2.graph) ∧
+    exHist.2.toReload = [.file "e" "s"] ∧
+    (enhance (exEnv [1, 0] [20]) 10 exHist.1 exHist.2).1.lookup ke = some ⟨.int 20, true, 1, true, 0⟩ ∧
+    (enhance (exEnv [1, 0] [20]) 10 exHist.1 exHist.2).1.lookup kb = some ⟨.int 21, true, 1, true, 1⟩ :=
+  ⟨C05_enhance_converges_partial (exEnv [1, 0] [10]) (exEnv [1, 0] [20]) 10 exHist.1 exHist.2 [.file "e" "s"]
+    (rank := exRank) (exEnv_steady _ _) (exEnv_steady _ _) (exEnv_same _ _ _ _)
+    (settled_of_check (by decide)) (C05_history_keeps_graphOK 10 _ _ graphOK_nil) (rank_of_entries (by decide))
+    (by decide) (by decide) (by decide) (by decide)
+    (exEnv_unchanged_e _ _ _) (fun _ _ => rfl) (by decide)
+    (noMiss_of_check (by decide)) (reloadsReturn_of_check (by decide)) (noRewire_of_check (by decide)),
+   by decide, by decide, by decide⟩
+
+/-- files rank above `e`, `e` above `b` and `n` -/
+def exRank2 : Dep → Nat
+  | .asset k => if k = ke then 1 else 0
+  | _ => 2
+
+/-- **Non-vacuity** of `C05_static_history_partial`, passes in static mode included: `load b`, the switch,
+a notification for `e.s` (static mode: `e` and `b` are re-evaluated at once), `load n` (its registration
+stays in the channel), `hot_reload()` (a no-op that drains it), a notification again (`e`, `b`, `n`). -/
+def exStaticHistory : List (Env × HOp) :=
+  [(exEnv [1, 0] [10], .api (.load kb)), (exEnv [1, 0] [10], .enhance),
+   (exEnv [1, 0] [10], .notify [.file "e" "s"]), (exEnv [1, 0] [10], .api (.load kn)),
+   (exEnv [1, 0] [10], .hotReload), (exEnv [1, 0] [10], .notify [.file "e" "s"])]
+
+theorem exStaticHistory_ok : StaticHist (exEnv [1, 0] [10]) 10 exStaticHistory ({}, {}) :=
+  .cons _ _ _ (StepOK.load (loadOK_of_check (by decide)))
+    (.cons _ _ _ (StepOK.of_idle rfl (by decide))
+      (.cons _ _ _ (StepOK.of_pass rfl (PassOK.of_checks exRank2 (by decide) (by decide) (by decide) (by decide) (by decide)))
+        (.cons _ _ _ (StepOK.load (loadOK_of_check (by decide)))
+          (.cons _ _ _ (StepOK.of_idle rfl (by decide))
+            (.cons _ _ _ (StepOK.of_pass rfl (PassOK.of_checks exRank2 (by decide) (by decide) (by decide) (by decide) (by decide)))
+              (.nil _))))))
+
+example :
+    Settled (exEnv [1, 0] [10]) 10 (runH 10 exStaticHistory ({}, {})).1 (runH 10 exStaticHistory ({}, {})).2.graph ∧
+    (runH 10 exStaticHistory ({}, {})).2.static_ = true ∧ (runH 10 exStaticHistory ({}, {})).2.toReload = [] :=
+  have h := C05_static_history_partial (exEnv [1, 0] [10]) (exEnv_steady _ _) 10 exStaticHistory exStaticHistory_ok
+    [(exEnv [1, 0] [10], .api (.load kb)), (exEnv [1, 0] [10], .enhance),
+     (exEnv [1, 0] [10], .notify [.file "e" "s"]), (exEnv [1, 0] [10], .api (.load kn)),
+     (exEnv [1, 0] [10], .hotReload)] (.notify [.file "e" "s"]) [] rfl rfl
+  ⟨h.1, by decide, h.2.2.2.2.1 (by decide)⟩
+
+/-- the passes of that history are not empty: the second notification re-evaluates `e`, then `b` and `n`;
+the registration of `n` was in the channel until the `hot_reload()` -/
+example :
+    (runH 10 (exStaticHistory.take 4) ({}, {})).1.out.length = 1 ∧
+    (runH 10 (exStaticHistory.take 5) ({}, {})).1.out = [] ∧
+    ((updateSteps (exEnv [1, 0] [10]) 10
+      (prePass (.notify [.file "e" "s"]) (runH 10 (exStaticHistory.take 5) ({}, {}))).1
+      (prePass (.notify [.file "e" "s"]) (runH 10 (exStaticHistory.take 5) ({}, {}))).2).map (·.key)).length = 3 ∧
+    (runH 10 exStaticHistory ({}, {})).1.lookup kn = some ⟨.int 10, true, 1, true, 2⟩ := by decide
+
 end AmVerif.Props.C05
